@@ -419,6 +419,12 @@ class LinprogSpy:
         self.so.linprog = self.real
 
 
+def solver_gave_up(spy) -> bool:
+    """the one linprog call of this solve ended with status 1 (iteration limit) or 4 (numerical difficulties) —
+    read from the raw result at the seam, not from optyx"""
+    return len(spy.calls) == 1 and (not spy.calls[0][1].success) and int(spy.calls[0][1].status) in (1, 4)
+
+
 def opt_rows(A):
     if A is None:
         return "none"
@@ -576,6 +582,12 @@ def check_model(rng, m, rep, lines, metas, methods):
                 rep.skipped["reference-" + ref_m_status] = rep.skipped.get("reference-" + ref_m_status, 0) + 1
                 continue
             ok = got_status == ref_m_status and (got_status != "OPTIMAL" or close_obj(s.objective_value, ref_m_obj))
+            if not ok and solver_gave_up(spy):
+                # the LP solver itself reported numerical difficulties / an iteration limit on the (equivalent but
+                # differently scaled or ordered) rows optyx handed it: optyx reports that faithfully (lpStatus_table);
+                # the verdict of the model is then unknown, not wrong
+                rep.skipped["solver-numerical-status"] = rep.skipped.get("solver-numerical-status", 0) + 1
+                ok = True
             if not ok:
                 rep.oracle_failures.append({
                     "what": "optyx and the independently assembled LP disagree",
@@ -622,7 +634,8 @@ def check_model(rng, m, rep, lines, metas, methods):
         if ref2_status in ("OPTIMAL", "INFEASIBLE", "UNBOUNDED"):
             for method in ["auto", rng.choice(METHODS)]:
                 try:
-                    s2 = solve_one(P, method)
+                    with LinprogSpy() as spy2:
+                        s2 = solve_one(P, method)
                 except Exception as ex:  # noqa: BLE001
                     rep.oracle_failures.append({"what": f"re-solve after {edit} raised {type(ex).__name__}: {ex}"[:300],
                                                 "model": m, "edited_model": m2, "method": method})
@@ -631,7 +644,9 @@ def check_model(rng, m, rep, lines, metas, methods):
                 rs, ro = (ref2_status, ref2_obj) if method in ("auto", "linprog", "highs") else reference(m2, method)
                 if rs not in ("OPTIMAL", "INFEASIBLE", "UNBOUNDED"):
                     continue
-                if not (s2.status.name == rs and (rs != "OPTIMAL" or close_obj(s2.objective_value, ro))):
+                if not (s2.status.name == rs and (rs != "OPTIMAL" or close_obj(s2.objective_value, ro))) and solver_gave_up(spy2):
+                    rep.skipped["solver-numerical-status"] = rep.skipped.get("solver-numerical-status", 0) + 1
+                elif not (s2.status.name == rs and (rs != "OPTIMAL" or close_obj(s2.objective_value, ro))):
                     rep.oracle_failures.append({
                         "what": f"after {edit} on the same Problem, optyx and the independently assembled LP disagree",
                         "model": m, "edited_model": m2, "edit": edit, "method": method,
